@@ -12,7 +12,8 @@ import re
 LEVEL = "model_checking"
 
 DEVS = ["Dev_NoVerifyOnRebuild", "Dev_CurrentPerms", "Dev_RollbackKeepsAttached", "Dev_IsAfterStrict",
-        "Dev_NoHasHead", "Dev_NoParentAclCheck", "Dev_StaleScratch", "Dev_MemoWriter", "Dev_RollbackOnlyHeads"]
+        "Dev_NoHasHead", "Dev_NoParentAclCheck", "Dev_StaleScratch", "Dev_MemoWriter", "Dev_RollbackOnlyHeads",
+        "Dev_CidByDigest", "Dev_KeepUnattached"]
 
 
 def cfg_text(bounds, fix=True, dev=None):
